@@ -2,7 +2,7 @@ import RbV.Basic.Codec
 import RbV.Model.IndexedFasta
 /-! Driver for property C12: indexed FASTA random access.
 
-`c12 <file hex> <fai hex> cuts:<n,…> sched:<s,…> <op>;<op>;… => <run>|<run>|…`   (see `harness/src/c12.rs`)
+`c12 h <file hex> <fai hex> cuts:<n,…> sched:<s,…> <op>;<op>;… => <run>|<run>|…`   (see `harness/src/c12.rs`)
 
 For every run (= the history executed on a fresh reader over `file.take n`) and every operation the driver decides
 the observation against the **specification**:
@@ -104,6 +104,7 @@ structure Ctx where
   sched : Nat → Nat
   index : List (Bytes × Idx)
   seqs : List Bytes     -- sequence of every record, from the FASTA parser model
+  truncated : Bool      -- this run reads a proper prefix of the file
 
 /-- decide one operation; returns (reason it is rejected | none, drift?, new fetch state (model), tags) -/
 def decideOp (c : Ctx) (st : Option Fetched) (everFetched : Bool) (op : Op) (obs : String) :
@@ -147,21 +148,22 @@ def decideOp (c : Ctx) (st : Option Fetched) (everFetched : Bool) (op : Op) (obs
         match parseObs obs, op.mode with
         | .bad, _ => some "unparsable-observation"
         | .ok b, .r =>
-          if inside then (if b = want then none else some ("wrong-data-expected-" ++ toHex want))
+          if inside then (if b = want then none else some ("wrong-data expected-" ++ toHex want))
           else some "truncated-span-returned-data"
         | .ok b, .i =>
-          if inside then (if b = want then none else some ("wrong-data-expected-" ++ toHex want))
+          if inside then (if b = want then none else some ("wrong-data expected-" ++ toHex want))
           else some "truncated-span-returned-data"
         | .ok b, .p k =>
           if b = want.take k ∧ (inside ∨ k ≤ want.length) then
             (if inside ∨ k = 0 ∨ pos f.idx (f.start + k - 1) < c.file.length then none
              else some "truncated-span-returned-data")
-          else some ("wrong-data-expected-" ++ toHex (want.take k))
+          else some ("wrong-data expected-" ++ toHex (want.take k))
         | .err cls pre, m =>
           if cls = "endless" then some "iterator-does-not-end" else
           if inside then
-            -- a partly consumed iterator may also stop early with an error only if the file is truncated
-            some "error-on-valid-request"
+            -- "a file shorter than the index promises yields an error": on a truncated file an error is acceptable
+            -- even when the requested span itself is still present (weakest reading); on the intact file it is not
+            if c.truncated then none else some "error-on-valid-request"
           else
             match pre, m with
             | _, .r => none
@@ -184,13 +186,13 @@ def runOps (c : Ctx) (ops : List Op) (obs : List String) : Option String × Bool
     | op :: ops, o :: os =>
       let (rej, d, st', ever', t) := decideOp c st ever op o
       match rej with
-      | some r => (some ("op" ++ toString j ++ "-" ++ r), drift || d, tags)
+      | some r => (some (r ++ " op" ++ toString j), drift || d, tags)
       | none => go st' ever' (j + 1) (drift || d) (t.foldl (fun acc x => if acc.contains x then acc else x :: acc) tags) ops os
   go none false 0 false [] ops obs
 
 def verdict (toks : List String) (out : String) : String :=
   match toks with
-  | [fh, ih, cs, ss, os] =>
+  | ["h", fh, ih, cs, ss, os] =>
     match parseHex fh, parseHex ih, field cs, field ss with
     | some file, some fai, some ("cuts", cl), some ("sched", sl) =>
       match parseNatList cl, parseNatList sl, parseFai fai, (os.splitOn ";").mapM parseOp with
@@ -220,11 +222,11 @@ def verdict (toks : List String) (out : String) : String :=
                 ++ String.join (tags.reverse.map (" " ++ ·))
             | n :: ns, r :: rs =>
               if n > file.length then "bad-op cut-beyond-file" else
-              let c : Ctx := { file := file.take n, sched := schedF, index := index, seqs := seqs }
+              let c : Ctx := ⟨file.take n, schedF, index, seqs, decide (n < file.length)⟩
               let obs := r.splitOn ";"
               if obs.length ≠ ops.length then "reject run" ++ toString i ++ "-observation-count" else
               match runOps c ops obs with
-              | (some rej, _, _) => "reject run" ++ toString i ++ "-cut" ++ toString n ++ "-" ++ rej
+              | (some rej, _, _) => "reject " ++ rej ++ " run" ++ toString i ++ " cut" ++ toString n
               | (none, d, t) => goRuns (i + 1) (drift || d)
                   (t.foldl (fun acc x => if acc.contains x then acc else x :: acc) tags) ns rs
           goRuns 0 false [] cuts runs
